@@ -173,7 +173,8 @@ EXC_OK = ['OSError', 'ValueError', 'KeyError', 'TimeoutError', 'FileNotFoundErro
           'AssertionError', 'ZeroDivisionError', 'EOFError', 'LookupError', 'TypeError', 'AttributeError', 'MemoryError',
           'RecursionError', 'StopIteration', 'UnicodeError', '_MyErr', 'NotImplementedError', 'IncompleteRead', 'zliberror']
 EXC_BASE = ['KeyboardInterrupt', 'SystemExit', 'GeneratorExit']
-# the stream errors fetch() converts: OSError and its subclasses, EOFError, http.client.HTTPException, zlib.error
+# the errors the except clause of fetch() converts when they cross the with block: OSError and its subclasses,
+# EOFError, http.client.HTTPException, zlib.error (what read() itself raises is converted at the call, any class)
 EXC_IO = ['OSError', 'TimeoutError', 'FileNotFoundError', 'ConnectionResetError', 'EOFError', 'IncompleteRead', 'zliberror']
 CONSUMERS = ['image', 'link-sheet', 'import-sheet', 'font-src', 'attachment', 'svg-use']
 MIMES = ['absent', None, 'text/css', 'image/png', 'text/html', 'font/otf']
@@ -217,7 +218,8 @@ def gen_frets(rng, n):
             out.append({'consumer': k, 'fret': {'t': 'dict', 'mime': mime}})                       # no data key at all
             out.append({'consumer': k, 'fret': {'t': 'dict', 'string': True, 'mime': mime,
                                                 'file': {'read': 'ok'}}})                            # both keys
-            for rd in ['ok', 'OSError', 'TimeoutError', 'EOFError', 'KeyboardInterrupt', 'ValueError', 'IncompleteRead', 'zliberror']:
+            for rd in ['ok', 'OSError', 'TimeoutError', 'EOFError', 'KeyboardInterrupt', 'ValueError', 'IncompleteRead', 'zliberror',
+                       '_MyErr', 'StopIteration']:
                 for cr in (False, True):
                     out.append({'consumer': k, 'fret': {'t': 'dict', 'mime': mime, 'file': {'read': rd, 'close_raises': cr}}})
     while len(out) < n:
@@ -235,8 +237,8 @@ def gen_frets(rng, n):
     return out
 
 
-# F98 is repaired for the stream errors; an Exception of another class raised by read() still escapes
-KNOWN_ESCAPE_SIG = 'fetch-body-read-other-error-escapes'
+# F98 (stream errors) and F230 (an Exception of any other class raised by read()) are repaired: both must hold
+READ_ESCAPE_SIG = 'fetch-body-read-other-error-escapes'
 
 
 def stream_consume(run, rng, n):
@@ -264,7 +266,7 @@ def stream_consume(run, rng, n):
                     continue
                 seen.add(key)
                 fr = c['fret']
-                sig = KNOWN_ESCAPE_SIG if fr['t'] == 'dict' else None
+                sig = READ_ESCAPE_SIG if fr['t'] == 'dict' else 'fetcher-exception-escapes'
                 run.fail('%s: an Exception raised by %s escapes as %s instead of being logged and skipped' % (
                     CONSUMERS[c['consumer']], 'file_obj.read()' if fr['t'] == 'dict' else 'the fetcher', o['name']),
                     {'stream': 'consume-direct', 'case': c, 'impl': o}, signature=sig)
